@@ -56,3 +56,46 @@ def cases(res):
                 if told_start and not user_ended and not told_end:
                     res.violation('user-not-told-association-gone:send-fails', 'C13.send-failure',
                                   '%s: indications %r' % (where, kinds), case)
+
+
+def connect_failures(res):
+    """The transport connection cannot be opened at all - for every reason a connect() can fail
+    with, not only "connection refused": the requesting user is told, the provider ends idle with
+    nothing left open, and it does not die."""
+    import errno
+    import socket
+    from . import fixtures as F
+    errors = [ConnectionRefusedError(errno.ECONNREFUSED, 'Connection refused'),
+              socket.gaierror(-2, 'Name or service not known'),
+              OSError(errno.ENETUNREACH, 'Network is unreachable'),
+              OSError(errno.EHOSTUNREACH, 'No route to host'),
+              OSError(errno.EADDRNOTAVAIL, 'Cannot assign requested address'),
+              PermissionError(errno.EACCES, 'Permission denied'),
+              TimeoutError(errno.ETIMEDOUT, 'Connection timed out'),
+              socket.timeout('timed out'),
+              OSError(errno.EMFILE, 'Too many open files')]
+    for err in errors:
+        label = '%s(%s)' % (type(err).__name__, getattr(err, 'errno', None))
+        case = {'kind': 'send-fails', 'scenario': 'connect', 'error': label}
+        obj, _ = F.user_primitive('uRQ')
+        sim = simnet.Sim('requestor', [('user', obj), ('time', 11.0)])
+        sim.connect_error = err
+        sim.run()
+        res.evaluations += 1
+        res.distinct.add('connect-fails|' + label)
+        res.count('oracle.connect-failure')
+        where = 'connect() fails with %s' % label
+        if sim.outcome != 'end-of-script':
+            key = {'raised': 'loop-died', 'blocked': 'blocking-recv', 'budget': 'spinning'}.get(
+                sim.outcome, 'run-' + str(sim.outcome))
+            res.violation('%s:connect-fails' % key, 'C13.send-failure', '%s: run() %s: %s' % (
+                where, sim.outcome, sim.error), case)
+            continue
+        open_socks = [s for s in sim.sockets if not s.closed]
+        if sim.state() != 0 or open_socks:
+            res.violation('not-idle-closed:connect-fails', 'C13.send-failure',
+                          '%s: final state Sta%d, %d socket(s) left open' % (where, sim.state() + 1,
+                                                                            len(open_socks)), case)
+        if not any(i[0] == 'A-ABORT' for i in sim.indications):
+            res.violation('user-not-told-association-gone:connect-fails', 'C13.send-failure',
+                          '%s: indications %r' % (where, sim.indications), case)
